@@ -13,7 +13,8 @@ LEVEL = "exploration"
 ENGINE = "codec"
 TECHNIQUE = ("property-based testing (Hypothesis): two independent printers (marshal-class notation, CQL notation) of "
              "generated type trees, structural comparison of the parsed driver types with the tree, differential "
-             "value-codec comparison between the parsed type and the type built directly from the tree")
+             "value-codec comparison between the parsed type and the type built directly from the tree "
+             "(the statement does not ask cass_parameterized_type() to re-parse, so that is not checked)")
 RULE = ("Type trees of depth <= 4 (<= 3 in quick) from spec.values.type_trees (all 21 scalars, list/set/map/tuple/udt/"
         "vector, frozen wrappers, reversed at top level only) whose UDT and field names are replaced by names drawn from "
         "classes (plain identifiers incl. names whose hex form is all decimal digits such as 'address', names needing "
@@ -39,7 +40,7 @@ _CASS = {"ascii": "AsciiType", "bigint": "LongType", "blob": "BytesType", "boole
 # the CQL name Cassandra gives to the class (UTF8Type is 'text' whichever alias created the column)
 _CQL_OF_CLASS = {v: k for k, v in _CASS.items() if k != "varchar"}
 
-_PLAIN_NAMES = ["address", "user", "type", "city", "phone", "t", "mytype", "name", "a_b", "t1", "zone", "x9_"]
+_PLAIN_NAMES = ["address", "user", "type", "mytype", "name", "a_b", "zone", "x9_", "location", "k", "model", "json_doc"]
 _QUOTE_NAMES = ["My Type", "Upper", "with-dash", "select", "1abc", "true", "a.b"]
 _HARD_NAMES = ['a"b', "a'b", "a\\b", "a>b", "a, b", "a<b", "é", "типы", "名前"]
 _FIELD_NAMES = ["a", "b", "street", "zip", "id", "f1", "Name", "my field", "1st", 'q"q', "é", "from", "x'y"]
@@ -442,23 +443,6 @@ def interpret_descriptor(case, ctx):
         ctx.check(C.cql_typename(text) == parsed.cql_parameterized_type(), ["C28.cql_typename.differs"],
                   "cql_typename(s) != lookup_casstype(s).cql_parameterized_type()")
 
-    # --- the Cassandra notation printed by the driver parses back to an equal type
-    for fullflag in (True, False):
-        printed = None
-        with ctx.driver(["C28.cass.print", "raises"]):
-            printed = parsed.cass_parameterized_type(full=fullflag)
-        if printed is None:
-            continue
-        try:
-            again = C.lookup_casstype(printed)
-        except Exception as e:  # noqa
-            ctx.fail(["C28.cass.reparse", _blame_print(tree), "raises", type(e).__name__],
-                     "cass_parameterized_type(full=%s) = %r does not parse: %s" % (fullflag, printed[:300], str(e)[:200]))
-            continue
-        r = _structure(again, tree)
-        if r:
-            ctx.fail(["C28.cass.reparse", r[0]], "cass_parameterized_type(full=%s) = %r re-parses differently: %s" % (fullflag, printed[:300], r[1]))
-
     # --- same value codec as the type built directly from the tree
     if case.get("value") is not None:
         _codec(case, ctx, parsed)
@@ -474,13 +458,6 @@ def _blame(tree, exc):
         return "udt-name:digit-hex"
     for x in _walk(tree):
         if x["t"] in ("vector", "udt", "dynamic", "composite", "custom"):
-            return x["t"]
-    return "plain"
-
-
-def _blame_print(tree):
-    for x in _walk(tree):
-        if x["t"] in ("vector", "udt", "dynamic"):
             return x["t"]
     return "plain"
 
